@@ -583,6 +583,12 @@ def alter_code(
     # If priority specified, prioritize some actions over others. This goes on a line number
     # level, so col_offset will be overridden by this.
     original_source = source
+    if any(
+        core.has_ignore_comment(source, core.get_charnos(node, source))
+        for node in (*removals, *replacements)
+    ):
+        return source
+
     priorities = {
         modification_type: priority.index(modification_type)
         if modification_type in priority
